@@ -70,6 +70,12 @@ CHECKS = {
         "note": "stack depth = address of a local inside a harness native, heap = live bytes of a counting global allocator in the helper process; verdicts on logical quantities only (watchdog/ OOM = inconclusive); update mode is not claimed by the property",
         "technique": "runtime monitoring: resource-slope monitor (stack address and live-heap probes per iteration) + fixed-stack end-to-end runs",
     },
+    "C20": {
+        "text": "Held on the executions observed: an independent proleptic-Gregorian calendar in the driver (cross-checked against Python datetime at start-up) vs gmtime / mktime / todate / fromdate / strftime / strptime / localtime / strflocaltime of the real interpreter on typed epochs (machine int, big int, double, literal; edge set incl. range limits +-1 s / +-1 us, leap days, century boundaries, negative times, +-2^31, +-2^53, +-2^63, +-2^63/10^6 and neighbours; random; fractional with 1-9 digits), 20 complete strftime formats round-tripped through strptime|mktime, broken-down arrays with edge field values, independently generated RFC 3339 texts with offsets and fractions; out-of-range, non-finite, non-numeric and malformed inputs must be errors; both build profiles (overflow = panic / silent wrap).",
+        "design_ref": "DESIGN.md §4 C20",
+        "note": "trusts the driver's 30-line calendar (datetime as second opinion for years 1..9999), the typed codec, the reading of 'to the microsecond' as < 1 us + 2 ulp + 1 ns; TZ=UTC pinned; years +-9999 observed, not judged",
+        "technique": "runtime monitoring: reference-model monitor (independent calendar) over batched typed inputs",
+    },
     "C08": {
         "text": "Held on the executions observed: whole comparison matrices over pools of typed values (every number representation of equal values, representation boundaries, text/byte strings, objects in different insertion orders) computed by the real interpreter, compared with the manual's order and checked model-free for trichotomy, antisymmetry and transitivity; sort/unique/group_by/min/max/bsearch/array-minus checked against the same order; model-equal values substituted for each other in 20 lookup/dedup contexts. Bounded by the pools; no proof.",
         "design_ref": "DESIGN.md §4 C08",
